@@ -267,7 +267,7 @@ func c10Members(r *Rng, i int) []string {
 }
 
 func runC10(ctx *Ctx) error {
-	ctx.Res.Rule = "allOf compositions of 1-4 members (refs, inline objects, a member that only requires another member's property, nested allOf, identical overlapping properties, additionalProperties true/false/schema, a member without type; conflicting type / format members) in EVERY permutation x new/old merge mode: the merged struct of the generated file (AST, embedded structs flattened) against the statement (property union, required iff some member requires, additionalProperties rule, conflicts rejected, all permutations alike); RUN: a JSON instance with every member set (plus an extra key where additional properties are allowed) decoded into the compiled type and re-encoded; CORR: mergeOpenapiSchemas through the hook vs the Lean model; a composition over a schema of another, import-mapped document (both member orders) generated, built and its merged struct compared with the union of the members' properties; non-trivial = every composition"
+	ctx.Res.Rule = "allOf compositions of 1-4 members (refs, inline objects, a member that only requires another member's property, nested allOf, identical overlapping properties, additionalProperties true/false/schema, a member without type; conflicting type / format members) in EVERY permutation x new/old merge mode: the merged struct of the generated file (AST, embedded structs flattened) against the statement (property union, required iff some member requires, additionalProperties rule, conflicts rejected, all permutations alike); RUN: a JSON instance with every member set (plus an extra key where additional properties are allowed) decoded into the compiled type and re-encoded; CORR: mergeOpenapiSchemas through the hook vs the Lean model; a composition over a schema of another, import-mapped document (both member orders) generated, built and its merged struct compared with the union of the members' properties; non-trivial = every composition Session 9: several compositions over one base component with 3/5/6/7 required names (the base's struct checked too); five fixed compositions in both merge modes on every run."
 	if err := c10Corr(ctx, ctx.N(600, 8000)); err != nil {
 		return err
 	}
